@@ -305,6 +305,12 @@ def _coq_deps(vfile, cache):
     return deps
 
 
+def _sha_file(path):
+    import hashlib
+    with open(path, "rb") as fh:
+        return hashlib.sha256(fh.read()).hexdigest()
+
+
 def coq_build(roots, timeout=3000, jobs=8):
     """Full .vo build (coqc, never -vos) of the given .v files (relative to coq/) and their
     dependency closure inside the project.  Returns (rc, log)."""
@@ -365,6 +371,13 @@ def coq_build(roots, timeout=3000, jobs=8):
         t = os.path.getmtime(vo)
         if os.path.getmtime(v) > t:
             return True
+        # content check as well: a source put in place with an old time stamp (cp -p, restore from an
+        # archive) must not be taken for the one the .vo was compiled from
+        try:
+            if open(vo + ".src").read() != _sha_file(v):
+                return True
+        except OSError:
+            return True
         for d in cache[f]:
             dvo = os.path.join(COQ, d + "o")
             if not os.path.exists(dvo) or os.path.getmtime(dvo) > t:
@@ -388,6 +401,9 @@ def coq_build(roots, timeout=3000, jobs=8):
                 os.remove(os.path.join(COQ, f + "o"))
             except OSError:
                 pass
+        else:
+            with open(os.path.join(COQ, f + "o.src"), "w") as fh:
+                fh.write(_sha_file(os.path.join(COQ, f)))
 
     for g in groups:
         files = [f for f in order if group(f) == g]
